@@ -65,7 +65,7 @@ def conc_proj(st):
     return d
 
 
-def conc_replay(ctx):
+def conc_replay(ctx, tag="conc", max_paths_quick=None, sources=(2, 3)):
     """Asynchronous sources completing CONCURRENTLY on their own threads, consumer on its own thread, at the grain of
     the internal queue's critical sections: TLC checks the C14 invariants (Aggregator.tla's, through INSTANCE) plus
     lock discipline / conservation / no stuck state / termination over ALL interleavings; the dumped graph is
@@ -83,21 +83,26 @@ def conc_replay(ctx):
     else:
         jobs = [("conc2", {"NS": 2, "MaxSteps": 3, "MaxAcc": 4, "MaxAfterEnd": 1}, None),
                 ("conc3", {"NS": 3, "MaxSteps": 2, "MaxAcc": 2, "SrcKinds": yr}, None)]
-    for tag, consts, cap in jobs:
+    for jtag, consts, cap in jobs:
         ns = consts["NS"]
+        if ns not in sources:
+            continue
+        if q and max_paths_quick:
+            cap = max_paths_quick
+        jtag = jtag.replace("conc", tag)
 
         def hdr(k, st0, ns=ns):
             b, n = styles[k % len(styles)]
             return {"ns": ns, "bstyle": b, "nstyle": n}
-        graph_replay(ctx, "Aggregator", "AggregatorConc", "AggregatorConc.cfg", tag, rpc, conc_proj, header_fn=hdr,
+        graph_replay(ctx, "Aggregator", "AggregatorConc", "AggregatorConc.cfg", jtag, rpc, conc_proj, header_fn=hdr,
                      must_take=CONC_ACTIONS, max_paths=cap, constants={k: str(v) for k, v in consts.items()},
                      tlc_kw={"workers": 4})
-    if not q:
+    if not q and 3 in sources:
         # three sources with the full alphabet and one more access: the specification alone (all invariants, termination)
-        path = os.path.join(vlib.BUILD, "%s_conc3full.cfg" % ctx.prop)
+        path = os.path.join(vlib.BUILD, "%s_%s3full.cfg" % (ctx.prop, tag))
         vlib.write_cfg(path, open(os.path.join(vlib.VERIF, "spec/Aggregator/AggregatorConc.cfg")).read(),
                        {"NS": "3", "MaxSteps": "2", "MaxAcc": "3"})
-        res = ctx.tlc("Aggregator", "AggregatorConc", path, "conc3full", workers=8, timeout=3600)
+        res = ctx.tlc("Aggregator", "AggregatorConc", path, tag + "3full", workers=8, timeout=3600)
         if res.violation:
             ctx.tlc_violation(res, "AggregatorConc:conc3full")
     ctx.assume("threaded replay at lock grain: every step of an asynchronous source completes on the source's own thread, the "
